@@ -1402,11 +1402,9 @@ class Vector():
 		if isinstance(other, Vector):
 			if not self._dtype.nullable and not other.schema().nullable and self._dtype.kind != other.schema().kind:
 				raise SerifTypeError("Cannot concatenate two typesafe Vectors of different types")
-			return Vector((self,) + (other,),
-				dtype=self._dtype)
+			return Vector((self,) + (other,))
 		if isinstance(other, Iterable) and not isinstance(other, (str, bytes, bytearray)):
-			return Vector([self, Vector(tuple(x for x in other))],
-				dtype=self._dtype)
+			return Vector([self, Vector(tuple(x for x in other))])
 		elif not self:
 			return Vector((other,),
 				dtype=self._dtype)
